@@ -247,12 +247,61 @@ func classifyRefFailure(c *Case, impl, ref Canon) []string {
 	if varianceConditioning(c, impl, ref) {
 		tags = append(tags, "variance-conditioning")
 	}
+	if illConditioned(c, impl, ref) {
+		tags = append(tags, "ill-conditioned")
+	}
 	// only for explicitly overflowing magnitudes (a literal of the order 1e300 in the query)
 	if (strings.Contains(c.Query, "stddev") || strings.Contains(c.Query, "stdvar") || strings.Contains(c.Query, "avg")) &&
 		(strings.Contains(c.Query, "1e30") || overflowingOperand(c)) && (hasNonFinite(impl) || hasNonFinite(ref)) {
 		tags = append(tags, "overflow-in-mean-or-variance")
 	}
 	return tags
+}
+
+// illConditioned: the two results have the same series and timestamps and differ
+// in values only, and the reference engine's own result moves by more than the
+// comparison's tolerance (1e-9 relative) when every stored value is changed by a relative
+// 1e-13 (sign and size varying from sample to sample): the query amplifies rounding by at least four orders of magnitude
+// at this input ((-1e300) % stddev(...), differences of nearly equal sums, ...),
+// so a difference within that amplification says nothing about the engine.
+func illConditioned(c *Case, impl, ref Canon) bool { return illConditionedWith(c, impl, ref, newRef) }
+
+// illConditionedWith: [ref] was computed by [mk]'s engine on the case's data.
+func illConditionedWith(c *Case, impl, ref Canon, mk func(EngineCfg) queryMaker) bool {
+	if impl.Kind == "error" || ref.Kind == "error" || impl.Kind != ref.Kind || len(impl.Series) != len(ref.Series) {
+		return false
+	}
+	for i := range impl.Series {
+		x, y := impl.Series[i], ref.Series[i]
+		if x.Key != y.Key || len(x.Points) != len(y.Points) {
+			return false
+		}
+		for j := range x.Points {
+			if x.Points[j].T != y.Points[j].T {
+				return false
+			}
+		}
+	}
+	pert := make([]SeriesData, len(c.Data))
+	for i, sd := range c.Data {
+		ps := make([]Sample, len(sd.Samples))
+		for j, smp := range sd.Samples {
+			v := smp.V
+			if !math.IsNaN(v) && !math.IsInf(v, 0) {
+				// not a uniform scaling (which cancellations are blind to): sign and size vary per sample
+				e := 1e-13
+				if (i*31+j)%2 == 0 {
+					e = -0.6e-13
+				}
+				v *= 1 + e
+			}
+			ps[j] = Sample{T: smp.T, V: v}
+		}
+		pert[i] = SeriesData{Labels: sd.Labels, Samples: ps}
+	}
+	cfg := c.Cfg()
+	moved, _ := runQuery(mk(cfg), NewStore(pert), cfg, c.Query, c.Window)
+	return diffCanon(moved, ref, false) != ""
 }
 
 // varianceConditioning: the query is a stddev/stdvar at the top level and the
